@@ -31,7 +31,8 @@ RULE = ("pairs of generated expressions (C10 generator: depth<=4, all constructo
 ASSUMPTIONS = [
     "every operator/helper theorem is about the model in Y0.Model.Dsl/Mutate; the tie to dsl.py/chain.py/contract.py is this run's correspondence check (sampling)",
     "theorems that cancel a division (fraction_simplify_den, chain_expand_den, contract_den, bayes/fraction_expand_den, sum_simplify_den) assume ProbFamily env and non-vanishing of the cancelled quantity (implied by Env.Positive on well-scoped leaves)",
-    "conditional: the specification normalises over the FREE EVENT variables of the expression; Expression.conditional also sums over bound Sum ranges (F11) and over intervention subscripts of non-Probability expressions: open findings, the theorem conditional_den is stated for what the code computes plus conditional_den_spec_partial under the hypothesis that no such variable exists",
+    "conditional: the specification normalises over the FREE EVENT variables of the expression; Probability.conditional meets it (conditional_den_probability); Expression.conditional also sums over bound Sum ranges (F11) and over intervention subscripts of non-Probability expressions: open findings keyed by verified mechanism; conditional_den states what the code computes, conditional_den_spec_partial the specification under the hypothesis that no such variable is collected (the full statement is visible as -- OPEN: conditional_den_spec in Props/C13.lean)",
+    "the oracle gives no opinion on conditional / bayes_expand when a `+X` value or an Intervention OBJECT occurs in event position (constants of the specification that get_base() / Probability.conditional treat differently)",
     "leaf-level helpers (chain/fraction/bayes expansion, contract, Sum.simplify) are proved for well-scoped leaves (pairwise distinct names, one world, intervened names disjoint from the leaf's variables); the oracle judges only those",
 ]
 LEANCHECK_MODULES = ["Y0.Model.Dsl", "Y0.Model.Mutate", "Y0.Props.C13"]
